@@ -21,11 +21,18 @@ pub type XResult<X> = RuntimeResult<Result<X, ErrV>>;
 
 /// what the comparator answers for (a, b) when it answers
 pub uninterp spec fn sgn(a: Val, b: Val) -> int;
-/// the closure `cmp` of quickselect: total, and its answers are `sgn` (the sign of the user's `cmp`)
+/// the pairs for which the user's comparator answers an error value
+pub uninterp spec fn fails(a: Val, b: Val) -> bool;
+/// the closure `cmp` of quickselect: total; its answers are `sgn` (the sign of the user's `cmp`), or an error
+/// value exactly for the pairs in `fails`
 pub open spec fn cmp_is_sgn<F: Fn(Val, Val) -> XResult<i8>>(cmp: &F) -> bool {
     &&& forall|a: Val, b: Val| #[trigger] cmp.requires((a, b))
-    &&& forall|a: Val, b: Val, r: XResult<i8>| #[trigger] cmp.ensures((a, b), r) ==> (r matches Ok(Ok(c)) ==> c as int == sgn(a, b) && -1 <= c <= 1)
+    &&& forall|a: Val, b: Val, r: XResult<i8>| #[trigger] cmp.ensures((a, b), r) ==> (r matches Ok(x) ==> (
+            if fails(a, b) { x is Err } else { x matches Ok(c) && c as int == sgn(a, b) && -1 <= c <= 1 }))
 }
+/// std: Result::unwrap_or (documented meaning), so that a body using it stays within the dialect
+pub assume_specification<X, E> [Result::<X, E>::unwrap_or] (r: Result<X, E>, default: X) -> (o: X)
+    ensures o == (match r { Ok(x) => x, Err(_) => default });
 pub assume_specification<T> [<[T]>::swap] (s: &mut [T], a: usize, b: usize)
     requires a < old(s)@.len(), b < old(s)@.len(),
     ensures final(s)@ == old(s)@.update(a as int, old(s)@[b as int]).update(b as int, old(s)@[a as int]);
